@@ -658,12 +658,14 @@ func createConnHandler(
 		fn := func(_ interface{}, stream grpc.ServerStream) error {
 			ctx := stream.Context()
 
-			args := dynamicpb.NewMessage(argsDesc)
-			first := stream.RecvMsg(args)
-			if first != nil && (first != io.EOF || !sd.ClientStreams) {
-				return first
+			var args *dynamicpb.Message
+			if !sd.ClientStreams {
+				// A single request message: read it before calling the back-end.
+				args = dynamicpb.NewMessage(argsDesc)
+				if err := stream.RecvMsg(args); err != nil {
+					return err
+				}
 			}
-			// first == io.EOF: the client's stream ended without any message.
 
 			if md, ok := metadata.FromIncomingContext(ctx); ok {
 				ctx = metadata.NewOutgoingContext(ctx, md)
@@ -678,30 +680,31 @@ func createConnHandler(
 			if err != nil {
 				return err
 			}
-			if first == io.EOF {
-				if err := clientStream.CloseSend(); err != nil {
-					return err
-				}
-			} else if err := clientStream.SendMsg(args); err != nil && err != io.EOF {
-				return err // io.EOF: the stream is done, RecvMsg returns its status
-			}
 
+			// firstErr: the client's stream failed before its first message.
+			firstErr := make(chan error, 1)
 			if !sd.ClientStreams {
-				// A single request message: half-close as a generated client does.
+				if err := clientStream.SendMsg(args); err != nil && err != io.EOF {
+					return err // io.EOF: the stream is done, RecvMsg returns its status
+				}
+				// Half-close as a generated client does.
 				if err := clientStream.CloseSend(); err != nil {
 					return err
 				}
-			}
-
-			if sd.ClientStreams && first == nil {
+			} else {
+				// The back-end stream is open before the client's first message
+				// is read: either side may speak first.
 				go func() {
-					for {
+					for n := 0; ; n++ {
 						args := dynamicpb.NewMessage(argsDesc)
 						if inErr := stream.RecvMsg(args); inErr != nil {
 							if inErr == io.EOF {
 								// The client finished sending: half-close the back-end stream.
 								clientStream.CloseSend() //nolint
 							} else {
+								if n == 0 {
+									firstErr <- inErr
+								}
 								cancel() // the client's stream failed: abort the call
 							}
 							break
@@ -730,6 +733,11 @@ func createConnHandler(
 			}
 
 			if isStreamError(outErr) {
+				select {
+				case err := <-firstErr:
+					return err // not the cancellation it caused
+				default:
+				}
 				return outErr
 			}
 			// The back-end has finished the call: its status is final whatever
